@@ -137,7 +137,7 @@ def legs_c18(res, env, only=None):
     tier, seed = res.tier, res.seed
     # ---- Miri
     if only in (None, "miri"):
-        sizes = [["20", "4", "40", "4"], ["4", "2", "4100", "2"]] if tier == "quick" else [["60", "8", "120", "8"], ["30", "12", "300", "4"], ["10", "3", "2000", "3"], ["40", "6", "64", "6"], ["4", "2", "9000", "2"], ["2", "1", "66000", "2"]]
+        sizes = [["20", "4", "40", "4"], ["4", "2", "4100", "2"]] if tier == "quick" else [["60", "8", "120", "8"], ["30", "12", "300", "4"], ["10", "3", "2000", "3"], ["40", "6", "64", "6"], ["4", "2", "9000", "2"], ["2", "1", "17000", "2"]]
         t0 = time.time()
         import concurrent.futures as cf
         with cf.ThreadPoolExecutor(max_workers=4) as ex:
